@@ -172,7 +172,21 @@ func (c *Ctx) specIdent(name string) *Val {
 		}
 		if objs := fr.ByName[name]; len(objs) > 0 {
 			var pick types.Object
-			for i := len(objs) - 1; i >= 0; i-- {
+			if fr.InEnsures {
+				// contract clauses speak about the function's parameters and results, never about a local that
+				// shadows one of them in an inner block
+				for _, o := range objs {
+					if _, isEntry := fr.Entry[o]; isEntry {
+						pick = o
+					}
+					for _, ro := range fr.ResultVars {
+						if ro == o {
+							pick = o
+						}
+					}
+				}
+			}
+			for i := len(objs) - 1; i >= 0 && pick == nil; i-- {
 				o := objs[i]
 				if sc := o.Parent(); sc == nil || !c.curPos.IsValid() || sc.Contains(c.curPos) || len(objs) == 1 {
 					pick = o
